@@ -23,8 +23,9 @@ Fixpoint strip_prefix (p l : bytes) : option bytes :=
   | x :: p', y :: l' => if x =? y then strip_prefix p' l' else None
   | _ :: _, [] => None
   end.
+Definition frev (l : bytes) : bytes := rev_append l [].   (* = rev l, linear *)
 Definition strip_suffix (s l : bytes) : option bytes :=
-  match strip_prefix (rev s) (rev l) with Some r => Some (rev r) | None => None end.
+  match strip_prefix (frev s) (frev l) with Some r => Some (frev r) | None => None end.
 Definition removesuffix (s l : bytes) : bytes :=
   match strip_suffix s l with Some r => r | None => l end.
 
